@@ -34,6 +34,9 @@ import Scico.Proofs.StepsExamples2
 import Scico.Proofs.StepsPDHGAlpha
 import Scico.Proofs.StepsOpial3
 import Scico.Proofs.StepsOpial4
+import Scico.Proofs.StepsFISTA2
+import Scico.Proofs.StepsPDHGStrong
+import Scico.Model.StepsSource
 
 set_option linter.unusedSectionVars false
 
@@ -559,6 +562,58 @@ theorem C03_fista_converges (p : PGMParams Unit ℝ X) {G : Fn X} {L m : ℝ} (h
     Filter.Tendsto (fun k => apgmMinimizer (iter (apgmSpecStep p) k s)) Filter.atTop (nhds xs) :=
   ⟨fun k => fista_x_rate p h hm hs hk s hsL ht hv k, fista_x_tendsto p h hm hs hk s hsL ht hv⟩
 
+/-- AcceleratedPGM with the library's `t` rule `t⁺ = (1 + √(1 + 4t²))/2`, MERELY CONVEX `f` (convergence of the whole sequence
+    of iterates is an open problem for this rule).  From the constructor state, for EVERY minimiser `x*` of `f + g`:
+    every iterate lies in the closed ball of radius `‖x_0 − x*‖` around `x*`, and every iterate after the first is in `dom g` -/
+theorem C03_fista_iterates_ball (p : PGMParams Unit ℝ X) {G : Fn X} {L : ℝ} (h : FISTAHyp p G L) {xb : X}
+    (hmin : IsMinOn p.f G xb) (s : APGMState Unit ℝ X) (hsL : s.L = L) (ht : s.t = 1) (hv : s.v = s.x) (k : Nat) :
+    ‖apgmMinimizer (iter (apgmSpecStep p) k s) - xb‖ ≤ ‖s.x - xb‖ ∧ (iter (apgmSpecStep p) (k + 1) s).x ∈ G.dom :=
+  ⟨fista_ball p h hmin s hsL ht hv k, fista_dom p h hmin s hsL ht hv k⟩
+
+/-- … and when `f + g` has closed sub-level sets (a closed function): every cluster point of the iterates is a minimiser; in
+    finite dimensions (arrays) some subsequence converges to a minimiser -/
+theorem C03_fista_cluster_points [FiniteDimensional ℝ X] (p : PGMParams Unit ℝ X) {G : Fn X} {L : ℝ} (h : FISTAHyp p G L)
+    {xb : X} (hmin : IsMinOn p.f G xb) (hcl : ClosedSublevels p.f G)
+    (s : APGMState Unit ℝ X) (hsL : s.L = L) (ht : s.t = 1) (hv : s.v = s.x) :
+    (∀ (φ : ℕ → ℕ), StrictMono φ → ∀ xc : X,
+      Filter.Tendsto (fun k => apgmMinimizer (iter (apgmSpecStep p) (φ k) s)) Filter.atTop (nhds xc) → IsMinOn p.f G xc) ∧
+    (∃ xc, IsMinOn p.f G xc ∧ ∃ φ : ℕ → ℕ, StrictMono φ ∧
+      Filter.Tendsto (fun k => apgmMinimizer (iter (apgmSpecStep p) (φ k) s)) Filter.atTop (nhds xc)) := by
+  have := FiniteDimensional.proper_real X
+  exact ⟨fun φ hφ xc hlim => fista_cluster_min p h hmin hcl s hsL ht hv φ hφ xc hlim,
+    fista_subseq p h hmin hcl s hsL ht hv⟩
+
+/-- … and when the minimiser is UNIQUE the whole sequence `minimizer()` converges to it (finite dimensions, `f` merely
+    convex: no strong convexity of `f` or `g`) -/
+theorem C03_fista_merely_convex_converges [FiniteDimensional ℝ X] (p : PGMParams Unit ℝ X) {G : Fn X} {L : ℝ}
+    (h : FISTAHyp p G L) {xb : X} (hmin : IsMinOn p.f G xb) (huniq : ∀ y, IsMinOn p.f G y → y = xb)
+    (hcl : ClosedSublevels p.f G) (s : APGMState Unit ℝ X) (hsL : s.L = L) (ht : s.t = 1) (hv : s.v = s.x) :
+    Filter.Tendsto (fun k => apgmMinimizer (iter (apgmSpecStep p) k s)) Filter.atTop (nhds xb) := by
+  have := FiniteDimensional.proper_real X
+  exact fista_unique_tendsto p h hmin huniq hcl s hsL ht hv
+
+/-- PDHG over the WHOLE documented range `alpha ∈ [0,1]` (`alpha = 0`: Arrow–Hurwicz, for which the merely convex instance of
+    `C03_pdhg_alpha0_no_convergence` does not converge), `m`-strongly convex `f`, linear `C` with `‖Ca‖ ≤ L‖a‖`, `τσL² ≤ 1`, and
+    the additional explicit step condition `(1−α)σL² + gap ≤ 2m` (void for `alpha = 1`; `σL² ≤ 2m` for `alpha = 0`):
+    (i) one documented iteration is Fejér-monotone in `M_α(a,b) = ‖a‖²/τ − 2α⟪Ca,b⟫ + ‖b‖²/σ ≥ 0` with the gain `gap·‖x⁺ − x*‖²`;
+    (ii) for `gap > 0`, `minimizer() → x*` from every start -/
+theorem C03_pdhg_alpha_strong (p : PDHGParams ℝ X Z) (F : Fn X) (xs : X) (zs : Z) (H : PDHGHypA p F xs zs)
+    {Lc m gap : ℝ} (R : PDHGRangeA p Lc m gap) (hsm : StrongSub F m) :
+    (∀ s : PDHGState X Z,
+      pdMA p.C p.tau p.sigma p.alpha ((pdhgSpecStep p s).x - xs) ((pdhgSpecStep p s).z - zs)
+          + gap * ‖(pdhgSpecStep p s).x - xs‖ ^ 2
+        ≤ pdMA p.C p.tau p.sigma p.alpha (s.x - xs) (s.z - zs)) ∧
+    (∀ (a : X) (b : Z), 0 ≤ pdMA p.C p.tau p.sigma p.alpha a b) ∧
+    (0 < gap → ∀ s : PDHGState X Z,
+      Filter.Tendsto (fun k => pdhgMinimizer (iter (pdhgSpecStep p) k s)) Filter.atTop (nhds xs)) :=
+  ⟨fun s => pdhg_fejer_step_alpha_strong p F xs zs H R hsm s, fun a b => pdMA_nonneg p H.tau H.sigma R a b,
+   fun hg s => pdhg_x_tendsto_alpha p F xs zs H R hg hsm s⟩
+
+/-- the parameter ranges printed in the class docstrings (pinned strings of `Model/StepsSource.lean`, compared with the working
+    tree by the generated obligation `Scico.Generated.StepsTables.constraints_ok` on every run) - the hypotheses `LADMMHyp`,
+    `PADMMHyp`, `PDHGHyp` / `PDHGHypA`, `DescentLemma` of the theorems of this file transcribe exactly these -/
+theorem C03_documented_constraints : Scico.Steps.Source.DocumentedConstraints := Scico.Steps.Source.documented_constraints
+
 /-- merely convex problems (no strong convexity), finite-dimensional variables (arrays), Opial's argument: if a saddle
     point exists, the PDHG iterates (`alpha = 1`, linear `C`, `τσ‖C‖² < 1`) converge from EVERY start to a saddle point
     `(x̄, z̄)` (`−Cᵀz̄ ∈ ∂f(x̄)`, `Cx̄ ∈ ∂g*(z̄)`) — so `minimizer()` converges to a minimiser of `f + g∘C` -/
@@ -735,5 +790,23 @@ example (y0 x0 : X) (k : Nat) :
       ≤ 2 * 1 * ‖x0 - y0‖ ^ 2 / ((k : ℝ) + 2) ^ 2 := by
   have := C03_fista_rate (exPGM y0) (exPGM_fista y0) y0 trivial (apgmInit 1 0 x0 ()) rfl rfl rfl k
   simpa [exPGM, zeroFn, Fn.ofReal, apgmInit] using this
+
+-- the hypotheses of the merely-convex FISTA statements on the instance (minimiser y0, unique, closed sub-level sets), and
+-- their conclusion there
+example (y0 : X) : IsMinOn (exPGM y0).f (zeroFn : Fn X) y0 ∧ (∀ y, IsMinOn (exPGM y0).f (zeroFn : Fn X) y → y = y0) ∧
+    ClosedSublevels (exPGM y0).f (zeroFn : Fn X) := ⟨exPGM_isMin y0, exPGM_unique y0, exPGM_closed y0⟩
+example [FiniteDimensional ℝ X] (y0 x0 : X) :
+    Filter.Tendsto (fun k => apgmMinimizer (iter (apgmSpecStep (exPGM y0)) k (apgmInit 1 0 x0 ()))) Filter.atTop (nhds y0) :=
+  C03_fista_merely_convex_converges (exPGM y0) (exPGM_fista y0) (exPGM_isMin y0) (exPGM_unique y0) (exPGM_closed y0)
+    (apgmInit 1 0 x0 ()) rfl rfl rfl
+
+-- Arrow–Hurwicz (`alpha = 0`) and every other `alpha ∈ [0,1]` on the strongly convex instance: hypotheses hold, iterates converge
+example (y0 : X) (alpha : ℝ) (h0 : 0 ≤ alpha) (h1 : alpha ≤ 1) :
+    PDHGHypA (exPDHGA y0 alpha) (halfSq y0) y0 0 ∧ PDHGRangeA (exPDHGA y0 alpha) 1 1 (3 / 2) :=
+  ⟨exPDHGA_hyp y0 alpha, exPDHGA_range y0 h0 h1⟩
+example (y0 : X) (s : PDHGState X X) :
+    Filter.Tendsto (fun k => pdhgMinimizer (iter (pdhgSpecStep (exPDHGA y0 0)) k s)) Filter.atTop (nhds y0) :=
+  (C03_pdhg_alpha_strong (exPDHGA y0 0) (halfSq y0) y0 0 (exPDHGA_hyp y0 0) (exPDHGA_range y0 le_rfl zero_le_one)
+    (halfSq_strong y0)).2.2 (by norm_num) s
 
 end Scico.Props.C03
